@@ -75,15 +75,45 @@ def text_class(exported):
     tags = []
     heads = {}
     for line in exported.splitlines():
-        m = re.match(r"^(?:[0-9.eE+-]+::)?(aux_\d+)\s*:-\s*(.*)\.$", line.strip())
+        m = re.match(r"^(?:[0-9.eE+-]+::)?((?:problog_cv_)?aux_\d+(?:_cb_\d+)?)\s*:-\s*(.*)\.$", line.strip())
         if m:
             heads.setdefault(m.group(1), set()).add(m.group(2))
     if any(len(b) > 1 for b in heads.values()):
         tags.append("aux-name-reused")
     defined = set(re.findall(r"^(?:[0-9.eE+-]+::)?([a-z_][A-Za-z0-9_]*)", exported, re.M))
+    for line in exported.splitlines():          # further heads of annotated disjunctions
+        if "::" in line:
+            for m in re.finditer(r";\s*[0-9.eE+-]+::([a-z_][A-Za-z0-9_]*)", line.split(":-")[0]):
+                defined.add(m.group(1))
     used = set(re.findall(r"(problog_cv_[A-Za-z0-9_]*)", exported))
+    cyc = "problog_cv_" in exported
+    if cyc:
+        # after cycle breaking: any body atom (renamed or not) that no exported clause defines
+        for line in exported.splitlines():
+            if ":-" in line:
+                body = line.split(":-", 1)[1]
+                for m in re.finditer(r"(?<![A-Za-z0-9_])([a-z][A-Za-z0-9_]*)\s*(?=[(,.]|$)", body):
+                    if m.group(1) not in ("true", "fail", "false", "not", "multi"):
+                        used.add(m.group(1))
     if any(u not in defined for u in used):
         tags.append("cycle-broken-name-undefined")
+    # copies of one atom (its own name and problog_cv_<x>_cb_<k>): a copy that lacks the probabilistic clause another copy has
+    copies = {}
+    for line in exported.splitlines():
+        head = line.split(":-")[0]
+        for m in re.finditer(r"(?:^|;\s*)([0-9.eE+-]+::)?((?:problog_cv_)?[a-z][A-Za-z0-9_]*?)(_cb_\d+)?(\([^)]*\))?\s*(?=[.;]|$)", head.strip()):
+            name = m.group(2)
+            if name.startswith("problog_cv_"):
+                name = name[len("problog_cv_"):]
+            if name.startswith(("body_", "aux_")) or name in ("query", "evidence"):
+                continue
+            base = name + (m.group(4) or "")
+            key = m.group(3) or "plain"
+            copies.setdefault(base, {}).setdefault(key, False)
+            if m.group(1):
+                copies[base][key] = True
+    if cyc and any(len(set(v.values())) > 1 and len(v) > 1 for v in copies.values()):
+        tags.append("cycle-broken-copy-without-its-fact")
     return tags
 
 
